@@ -620,7 +620,7 @@ func evaluateUnary(operator token.Token, right interface{}) interface{} {
 			utils.RuntimeError(operator, err.Error())
 			return nil
 		}
-		return ^value
+		return float64(^value)
 
 	default:
 		utils.RuntimeError(operator, "Unknown unary operator: "+operator.Lexeme)
@@ -762,20 +762,20 @@ func handleBitwise(left, right interface{}, operator token.Token) interface{} {
 
 	switch operator.Type {
 	case token.AND:
-		return leftInt & rightInt
+		return float64(leftInt & rightInt)
 	case token.OR:
-		return leftInt | rightInt
+		return float64(leftInt | rightInt)
 	case token.XOR:
-		return leftInt ^ rightInt
+		return float64(leftInt ^ rightInt)
 	case token.LEFT_SHIFT, token.RIGHT_SHIFT:
 		if rightInt < 0 {
 			utils.RuntimeError(operator, "Shift count must not be negative.")
 			return nil
 		}
 		if operator.Type == token.LEFT_SHIFT {
-			return leftInt << rightInt
+			return float64(leftInt << rightInt)
 		}
-		return leftInt >> rightInt
+		return float64(leftInt >> rightInt)
 	case token.POWER:
 		return int64(math.Pow(float64(leftInt), float64(rightInt)))
 	}
